@@ -329,3 +329,54 @@ Theorem C13_gen_resample :
                      (resample_get_examples randint randperm v (rsize g sz) repl)
      else None).
 Proof. exact gen_resample_eq. Qed.
+
+(* ---- the get_examples bodies (children sampled through the oracle [get]: what each child returns at this
+   call; user callables are abstract functions; meshgrid / flatten / reshape are PySem primitives) *)
+Theorem C13_gen_concat_get :
+  forall (draw : nat -> nat -> list row) (mask : nat -> nat -> list bool) (rperm rint : nat -> nat -> list nat)
+         (tvec : nat -> row -> row) (tmulti : nat -> list row -> out) (get : gen -> pyv) (k : nat) (gs : list gen),
+    (forall h : gen, In h gs -> sample draw mask rperm rint tvec tmulti h k = Some (out_of_pyv (get h))) ->
+    option_map (fun p : pyv * unit => out_of_pyv (fst p)) (concat_get_examples get gs) = sample draw mask rperm rint tvec tmulti (Concat gs) k.
+Proof. exact gen_concat_get_eq. Qed.
+
+Theorem C13_gen_ensemble_get :
+  forall (draw : nat -> nat -> list row) (mask : nat -> nat -> list bool) (rperm rint : nat -> nat -> list nat)
+         (tvec : nat -> row -> row) (tmulti : nat -> list row -> out) (get : gen -> pyv) (k : nat) (gs : list gen),
+    (forall h : gen, In h gs -> sample draw mask rperm rint tvec tmulti h k = Some (out_of_pyv (get h))) ->
+    option_map (fun p : pyv * unit => out_of_pyv (fst p)) (ensemble_get_examples get gs) = sample draw mask rperm rint tvec tmulti (Ensemble gs) k.
+Proof. exact gen_ensemble_get_eq. Qed.
+
+Theorem C13_gen_mesh_get :
+  forall (draw : nat -> nat -> list row) (mask : nat -> nat -> list bool) (rperm rint : nat -> nat -> list nat)
+         (tvec : nat -> row -> row) (tmulti : nat -> list row -> out) (get : gen -> pyv) (k : nat) (gs : list gen),
+    (forall h : gen, In h gs -> sample draw mask rperm rint tvec tmulti h k = Some (out_of_pyv (get h))) ->
+    option_map (fun p : pyv * unit => out_of_pyv (fst p)) (mesh_get_examples get gs) = sample draw mask rperm rint tvec tmulti (Mesh gs) k.
+Proof. exact gen_mesh_get_eq. Qed.
+
+Theorem C13_gen_transform_callable :
+  forall (draw : nat -> nat -> list row) (mask : nat -> nat -> list bool) (rperm rint : nat -> nat -> list nat)
+         (tvec : nat -> row -> row) (tmulti : nat -> list row -> out) (k : nat) (g : gen) (t : nat) (v : pyv)
+         (trans_fn : list row -> pyv) (trans_list : list (row -> row)),
+    sample draw mask rperm rint tvec tmulti g k = Some (out_of_pyv v) ->
+    (forall cs : list row, tmulti t cs = out_of_pyv (trans_fn cs)) ->
+    option_map (fun p : pyv * unit => out_of_pyv (fst p)) (transform_get_examples trans_fn trans_list v true) =
+    sample draw mask rperm rint tvec tmulti (TransformF g t) k.
+Proof. exact gen_transform_callable_eq. Qed.
+
+Theorem C13_gen_transform_list :
+  forall (draw : nat -> nat -> list row) (mask : nat -> nat -> list bool) (rperm rint : nat -> nat -> list nat)
+         (tvec : nat -> row -> row) (tmulti : nat -> list row -> out) (k : nat) (g : gen) (ts : list (option nat))
+         (v : pyv) (trans_fn : list row -> pyv),
+    sample draw mask rperm rint tvec tmulti g k = Some (out_of_pyv v) ->
+    option_map (fun p : pyv * unit => out_of_pyv (fst p)) (transform_get_examples trans_fn (map (app_t tvec) ts) v false) =
+    sample draw mask rperm rint tvec tmulti (TransformL g ts) k.
+Proof. exact gen_transform_list_eq. Qed.
+
+Theorem C13_gen_sampler_get :
+  forall (draw : nat -> nat -> list row) (mask : nat -> nat -> list bool) (rperm rint : nat -> nat -> list nat)
+         (tvec : nat -> row -> row) (tmulti : nat -> list row -> out) (k : nat) (g : gen) (v : pyv),
+    built (norm g) = true ->
+    sample draw mask rperm rint tvec tmulti (norm g) k = Some (out_of_pyv v) ->
+    sampler_get_examples v = Some (PL (cols_of v), tt) /\
+    run draw mask rperm rint tvec tmulti (Sampler g) k = Some (true, (FL, cols_of v)).
+Proof. exact gen_sampler_get_eq. Qed.
